@@ -50,7 +50,7 @@ def main():
         results.append({"threads": threads, "preemption_rate": rate, "miri_seeds": [lo, lo + n], "schedules_passed": oks, "failing_seeds": failing})
         for fs in failing:
             cls = "miri-concurrent-first-use"
-            m = re.search(r"(MISMATCH[^\n]*|error: Undefined Behavior[^\n]*|error: [^\n]*[Dd]ata race[^\n]*)", out)
+            m = re.search(r"(MISMATCH[^\n]*|error: Undefined Behavior[^\n]*|error: [^\n]*[Dd]ata race[^\n]*|panicked at [^\n]*\n[^\n]*|error: [^\n]*deadlock[^\n]*)", out)
             path = os.path.join(VERIF, "replays", f"C15-{cls}-{fs}-{threads}.json")
             os.makedirs(os.path.dirname(path), exist_ok=True)
             json.dump({"engine": "miri", "property": "C15", "class": cls, "miri_seed": fs, "threads": threads, "preemption_rate": rate,
